@@ -31,6 +31,10 @@ type directProg struct {
 	sig     string
 	noCtx   bool // run with vm.Execute (a context that cannot be cancelled)
 	ordered bool // want is the exact sequence, not a multiset
+	// passes (round 9, modelprops_r9.go): the program records under the names given here ("rd c=...",
+	// "rd s=...", ...); every pass must show the same multiset of records, and want (when given) is
+	// that multiset with the pass name taken off
+	passes []string
 }
 
 type modelProp struct {
@@ -191,6 +195,14 @@ func runDirect(c *wk.Case, mp *modelProp, d directProg) {
 			c.Violation(mp.id+":"+d.sig+":error", "the run ended with error "+strconv.Quote(real.ErrText)+", expected one containing "+strconv.Quote(d.wantErr), input)
 			return
 		}
+		if len(d.passes) > 0 {
+			if sig, msg := judgePasses(d, real.Trace, real.ErrText, input); sig != "" {
+				c.Violation(mp.id+":"+d.sig+":"+sig, msg+" (run "+strconv.Itoa(rep+1)+")", input)
+				return
+			}
+			c.Count("overlap_records", len(real.Trace))
+			continue
+		}
 		want := d.want
 		got := append([]string(nil), real.Trace...)
 		if want == nil {
@@ -211,6 +223,82 @@ func runDirect(c *wk.Case, mp *modelProp, d directProg) {
 			return
 		}
 	}
+}
+
+// judgePasses compares the records of the passes of an overlap program (modelprops_r9.go).
+func judgePasses(d directProg, trace []string, errText string, input map[string]interface{}) (sig, msg string) {
+	delete(input, "observed_trace") // thousands of records: the witness names the differing ones
+	if errText != "" {
+		return "error", "the run ended with error " + strconv.Quote(errText)
+	}
+	by := map[string][]string{}
+	for _, ev := range trace {
+		ok := false
+		for _, p := range d.passes {
+			if strings.HasPrefix(ev, "rd "+p+"=") {
+				by[p] = append(by[p], ev[len("rd "+p+"="):])
+				ok = true
+				break
+			}
+		}
+		if !ok {
+			return "stray-record", "a record under none of the pass names: " + clipS(ev, 300)
+		}
+	}
+	diff := func(a, b []string) (onlyA, onlyB []string) {
+		cnt := map[string]int{}
+		for _, x := range a {
+			cnt[x]++
+		}
+		for _, x := range b {
+			cnt[x]--
+		}
+		for x, n := range cnt {
+			for ; n > 0 && len(onlyA) < 6; n-- {
+				onlyA = append(onlyA, clipS(x, 300))
+			}
+			for ; n < 0 && len(onlyB) < 6; n++ {
+				onlyB = append(onlyB, clipS(x, 300))
+			}
+		}
+		sort.Strings(onlyA)
+		sort.Strings(onlyB)
+		return
+	}
+	if d.want != nil {
+		for _, p := range d.passes {
+			if a, b := diff(by[p], d.want); len(a)+len(b) > 0 {
+				input["pass"], input["records_not_expected"], input["expected_records_missing"] = p, a, b
+				kind := "overlapping"
+				if p == "s" {
+					kind = "one-at-a-time"
+				}
+				return kind, "pass " + p + " (" + kind + " invocations) recorded something else than the statement fixes: " + strconv.Itoa(len(by[p])) + " records, " + strconv.Itoa(len(d.want)) + " expected"
+			}
+		}
+		return "", ""
+	}
+	ref := by["s"]
+	if len(ref) == 0 {
+		return "no-records", "the one-at-a-time pass recorded nothing"
+	}
+	for _, p := range d.passes {
+		if p == "s" {
+			continue
+		}
+		if a, b := diff(by[p], ref); len(a)+len(b) > 0 {
+			input["pass"], input["records_only_in_overlapping_pass"], input["records_only_in_one_at_a_time_pass"] = p, a, b
+			return "overlapping", "pass " + p + " (goroutines of one run doing the same work at once) recorded something else than the same work done one after another"
+		}
+	}
+	return "", ""
+}
+
+func clipS(s string, n int) string {
+	if len(s) > n {
+		return s[:n] + "..."
+	}
+	return s
 }
 
 // C08: for-in visits every map entry once, also when keys of different types print alike.
@@ -293,7 +381,7 @@ func c09Direct() []directProg {
 
 func init() {
 	registerModelProp(&modelProp{
-		id: "C07", prof: gen.ProfControl, nQuick: 30000, nThor: 3000000,
+		id: "C07", prof: gen.ProfControl, nQuick: 30000, nThor: 3000000, direct: c07Overlap(),
 		volume: []volScenario{{"hot-sites-0", c07HotSites(0)}, {"hot-sites-1", c07HotSites(1)}, {"hot-sites-2", c07HotSites(2)}, {"hot-sites-3", c07HotSites(3)}},
 		fixed: [][]gen.Stmt{{
 			&gen.ExprStmt{X: &gen.FuncLit{Name: "f0", Body: []gen.Stmt{&gen.Return{Exprs: []gen.Expr{&gen.Call{Fn: "hv", Args: []gen.Expr{lit(100)}}}}}}},
@@ -306,13 +394,13 @@ func init() {
 	})
 	exits := []string{"break", "continue", "return", "throw", "runtime-error"}
 	registerModelProp(&modelProp{
-		id: "C04", prof: gen.ProfScope, fixed: tryControlFixed(), direct: c04Direct(),
+		id: "C04", prof: gen.ProfScope, fixed: tryControlFixed(), direct: append(c04Direct(), c04Overlap()...),
 		volume:  []volScenario{{"bigscope-a", c04BigScope}, {"bigscope-b", c04BigScope}, {"bigscope-c", c04BigScope}, {"bigscope-d", c04BigScope}, {"closures", c04Closures}, {"recursion", c04Recursion}, {"fresh-invocation", c04FreshInvocation}, {"hot-name", c04HotName}},
 		rule:    "PRNG-generated terminating programs (scope profile: a 4-name pool assigned, var-declared and read back at every nesting level of if/else-if/else, the loop forms, for-in, switch, try/catch/finally, module, function literals, closures, recursion; every block left by every exit path) run on the real interpreter; the recorded read-back trace, result and error status must be admitted by a variant of the reference model. Non-trivial = the program contains at least one shadowing declaration and at least one non-normal exit (break/continue/return/throw/runtime error); distinct = distinct source text.",
 		nontriv: func(f map[string]int) bool { return hasAny(f, "shadow") && hasAny(f, exits...) },
 	})
 	registerModelProp(&modelProp{
-		id: "C08", prof: gen.ProfControl, fixed: tryControlFixed(), direct: append(c08Direct(), c08ReturnDirect()...),
+		id: "C08", prof: gen.ProfControl, fixed: tryControlFixed(), direct: append(append(c08Direct(), c08ReturnDirect()...), c08Overlap()...),
 		volume: []volScenario{{"cond-stream-a", c08CondStream}, {"cond-stream-b", c08CondStream}, {"long-loops", c08LongLoops}, {"wide-branches", c08WideBranches}, {"switch-vs-eq", c08SwitchVsEq}},
 		rule:   "PRNG-generated terminating programs (control profile: nested if/else-if/else, switch with multi-expression cases and default in any position, the three loop forms with probing conditions and post expressions, for-in over lists and maps, break/continue/return at every position, conditions from every truthiness class) run on the real interpreter; the recorded probe trace, result and error status must be admitted by a variant of the reference model. Non-trivial = contains a loop or switch and at least one of break/continue/return; distinct = distinct source text.",
 		nontriv: func(f map[string]int) bool {
@@ -320,7 +408,7 @@ func init() {
 		},
 	})
 	registerModelProp(&modelProp{
-		id: "C09", prof: gen.ProfError, fixed: tryControlFixed(), direct: append(c09Direct(), c09SentinelDirect()...),
+		id: "C09", prof: gen.ProfError, fixed: tryControlFixed(), direct: append(append(c09Direct(), c09SentinelDirect()...), c09Overlap()...),
 		volume: []volScenario{{"deep-defers-a", c09DeepDefers}, {"deep-defers-b", c09DeepDefers}, {"deep-defers-c", c09DeepDefers}, {"deep-defers-d", c09DeepDefers}, {"many-defers", c09ManyDefers}, {"try-stream", c09TryStream}},
 		rule:   "PRNG-generated terminating programs (error profile: try/catch/finally nested in functions, 0-5 defer statements per invocation at top level, in branches and loops, deferred host functions, closures, variadic/spread callees, failing and throwing deferred callees, throw / runtime errors / return at every point) run on the real interpreter; the recorded probe trace (including every deferred call with the arguments it received), result and error status must be admitted by a variant of the reference model. Non-trivial = contains a try or a defer and at least one throw/runtime error/return; distinct = distinct source text.",
 		nontriv: func(f map[string]int) bool {
